@@ -1791,7 +1791,7 @@ def pandas_table(interp):
         "merge": lambda l, r, **kw: merge_frames(interp, l, r, **kw),
         "DataFrame": _dataframe_ctor(interp),
         "Series": _series_ctor(interp),
-        "get_dummies": lambda data, **kw: (frame_dummies(interp, data, **kw) if isinstance(data, Frame) else Dummies(interp, data)),
+        "get_dummies": lambda data, **kw: (frame_dummies(interp, data, **kw) if isinstance(data, Frame) else (only_kw("get_dummies(Series)", kw), Dummies(interp, data))[1]),
     }
 
 
